@@ -742,3 +742,7 @@ var (
 	regionsOnce sync.Once
 	regions     = map[string]bool{}
 )
+
+// Replaying reports whether this process replays a saved case (known-finding
+// regions are then not excluded, so a pinned finding shows itself).
+func Replaying() bool { return os.Getenv("VERIF_REPLAY") != "" }
